@@ -378,6 +378,8 @@ let run_ssudp (fields : string list) : string =
       if op = "" then None else if !dead then Some "SKIP" else
       let c = op.[0] and arg = String.sub op 1 (String.length op - 1) in
       match c with
+      | 'P' ->
+        st := { !st with cs_sess = { !st.cs_sess with us_pid = n_of_hex arg } }; Some "SET"
       | 'D' ->
         (match client_dgram_decode prims cx rp now !st (unhex arg) with
          | Ok (st', None) -> st := st'; Some "NONE"
